@@ -8,7 +8,7 @@ def run(chk):
     quick = chk.tier == "quick"
     chk.rule = ("sequential scripts over 4-5 whole networks on the fabric with random connection limits (none, 0..3) and known-peer tables mutated at run time "
                 "(High / Allowed / Never / removed): every explicit dial's result and the listings at quiet periods are compared with NetModel.v (admission rule applied at the "
-                "listener with the count of its established connections of either origin); distinct = scenario; non-trivial = all")
+                "listener with the count of its established connections of either origin); plus nodes at or over their own limit whose explicit and background (High-affinity) dials must still go out; distinct = scenario; non-trivial = all")
     if not chk.prepare():
         return
     w = dict(fault=0.0, restart=0.03, known=0.25, pin=0.0, limits=True)
@@ -59,6 +59,7 @@ def run(chk):
                     chk.monitor_fail("node %d has affinity Never for %d but admitted its connection" % (b, a), dict(case=rec["scenario"][:2000], op_index=oi))
                 if nodes[b][2] is None and (b, a) not in never and r.startswith("err"):
                     chk.monitor_fail("node %d has no connection limit and no Never entry for %d but the dial failed" % (b, a), dict(case=rec["scenario"][:2000], op_index=oi))
+    background_dials(chk)
     chk.assumptions += ["arrivals do not overlap (the code documents the limit as approximate for simultaneous arrivals)",
                         "a peer that reconnects while still connected counts against the limit like any other connection (by design, not alarmed)"]
     if not quick:
@@ -66,6 +67,51 @@ def run(chk):
         chk.extra["coqchk"] = "ok" if ok else out[-500:]
         if not ok:
             chk.broken.append("coqchk failed or reported axioms")
+
+
+def background_dials(chk):
+    """The limit governs inbound admission only: with the dialing node at (or over) its own connection limit, an
+    explicit dial and the background dial of a High-affinity known peer still go out (NetModel: Dial is never
+    subject to the dialer's limit, theorem C10_outbound_unlimited)."""
+    quick = chk.tier == "quick"
+    scen, models, metas = [], [], []
+    for i in range(6 if quick else 60):
+        rng = chk.rng
+        limit = rng.choice([0, 1, 2])
+        k = limit + 2                       # peers 1..limit+1 fill the node, peer k is the High one
+        cmds = ["seed=%d delay=%d" % (rng.randrange(1 << 30), rng.choice([200, 2000])),
+                "node 0 key=10 name=n10 maxconn=%d ctick=1000 ctimeout=500 idle=600000 keepalive=5000" % limit]
+        for j in range(1, k + 1):
+            cmds.append("node %d key=%d name=n10 idle=600000 keepalive=5000" % (j, 10 + j))
+        ops = []
+        for j in range(1, limit + 1):
+            if rng.random() < 0.5:
+                cmds.append("connect 0 %d" % j)
+                ops.append("D 100 %d" % j)
+            else:
+                cmds.append("connect %d 0" % j)
+                ops.append("D %d 100" % j)
+        cmds += ["sleep 300", "peers 0", "connect 0 %d" % (limit + 1), "sleep 300", "peers 0", "known 0 %d high" % k, "sleep 2600", "peers 0"]
+        ops += ["D 100 %d" % (limit + 1), "D 100 %d" % k]
+        scen.append("simnet " + " ; ".join(cmds))
+        # node 0 is called 100 in the model (0 is not a valid model id); same names, limit only at node 0
+        spec = "100:10:-:%d;" % limit + ";".join("%d:10:-:-" % j for j in range(1, k + 1))
+        models.append("netmodel %s | %s" % (spec, " / ".join(ops)))
+        metas.append((limit, k))
+    outs, parsed = simnet.run_scenarios(chk, scen, "fabric:outbound-at-limit")
+    for sc, mc, res, mo, (limit, k) in zip(scen, models, parsed, run_model(models), metas):
+        if res is None:
+            continue
+        chk.nontriv(sc)
+        final = res[-1].strip("[]").split(",")
+        mlast = mo.split(" | ")[-1]
+        mlist = dict(x.split(":") for x in mlast.split(" L=")[1].split(";"))["100"].strip("[]").split(",")
+        if str(limit + 1) not in final:
+            chk.monitor_fail("an explicit dial from a node at its connection limit (%d) did not go through: %s" % (limit, res[-1]), dict(case=sc))
+        elif str(k) not in final:
+            chk.monitor_fail("the High-affinity known peer %d was not dialed in the background while the node was at its connection limit (%d): %s" % (k, limit, res[-1]), dict(case=sc))
+        if sorted(x for x in final if x) != sorted(x for x in mlist if x):
+            chk.disagree(sc, "node 0 lists %s" % sorted(final), "NetModel.v: %s" % sorted(mlist), "simnet/netmodel-outbound")
 
 
 replay = __import__("c_c09").replay
